@@ -17,12 +17,13 @@ deriving Repr, Inhabited
 instance : BEq Obj := ⟨fun a b => a.val == b.val⟩
 
 inductive Cont where
-  | arr (str : Bool) (a : Arr Int)
-  | lst (str : Bool) (l : Lst Int)
+  | arr (ek : Nat) (a : Arr Int)      -- ek = element kind: 0 Int, 1 String, 2 Rec12 (12-byte record), 3 Rec5 (5-byte record)
+  | lst (ek : Nat) (l : Lst Int)
   | tup (t : Tup Obj)
 
-def Cont.isStr : Cont → Bool
-  | .arr s _ => s | .lst s _ => s | .tup _ => false
+def Cont.ek : Cont → Nat
+  | .arr s _ => s | .lst s _ => s | .tup _ => 0
+def Cont.isStr (c : Cont) : Bool := c.ek == 1
 def Cont.isTup : Cont → Bool
   | .tup _ => true | _ => false
 
@@ -50,8 +51,8 @@ def fmtInts (xs : List Int) : String := fmtSeq toString encInt xs
 def fmtObjs (xs : List Obj) : String := fmtSeq showObj encObj xs
 
 def Cont.dump : Cont → String
-  | .arr s a => s!"{if s then "AS" else "A"} n={a.items.length} s={a.nslots} {fmtInts a.items}"
-  | .lst s l => s!"{if s then "LS" else "L"} n={l.nitems} {fmtInts l.items}"
+  | .arr s a => s!"{match s with | 0 => "A" | 1 => "AS" | 2 => "A12" | _ => "A5"} n={a.items.length} s={a.nslots} {fmtInts a.items}"
+  | .lst s l => s!"{if s == 1 then "LS" else "L"} n={l.nitems} {fmtInts l.items}"
   | .tup t => s!"T n={t.items.length} {fmtObjs t.items}"
 
 def resStr : Res Unit → String
@@ -98,10 +99,13 @@ def parseObj (st : St) (s : String) : St × Option Obj :=
   | _ => (st, none)
 
 /-- element / probe value token for Int and String kinds -/
-def parseVal (str : Bool) (s : String) : Option Int :=
+def r5Max : Int := 8388607
+
+def parseVal (ek : Nat) (s : String) : Option Int :=
   match parseInt s with
   | none => none
-  | some v => if str then (if v ≥ 0 && v ≤ strMax then some v else none)
+  | some v => if ek == 1 then (if v ≥ 0 && v ≤ strMax then some v else none)
+              else if ek == 3 then (if v ≥ -r5Max - 1 && v ≤ r5Max then some v else none)
               else (if v ≥ -valMax && v ≤ valMax then some v else none)
 
 def slotIdx (s : String) : Option Nat :=
@@ -148,7 +152,7 @@ def optSeq {α : Type} (f : List α → String) : Option (List α) → String
 
 /-- ops on an Int-element container (Array or List), generic part -/
 def stepInts (st : St) (k : Nat) (c : Cont) (cmd : String) (args : List String) : St × String :=
-  let str := c.isStr
+  let str := c.ek
   let fin (c' : Cont) (r : Res Unit) : St × String := (setSlot st k (some c'), out st cmd (resStr r) (some c'))
   let run (op : Op Int) : St × String :=
     match c with
@@ -197,7 +201,7 @@ def stepInts (st : St) (k : Nat) (c : Cont) (cmd : String) (args : List String) 
     | some n =>
       if n > 100000 then (st, "O bad-op") else
       match c with
-      | .lst true l => if n > l.items.length then (st, "O resize unsupported") else run (.resize n)
+      | .lst 1 l => if n > l.items.length then (st, "O resize unsupported") else run (.resize n)
       | _ => run (.resize n)
     | none => (st, "O bad-op")
   | "sort", [f] => match parseNat f with
@@ -241,7 +245,7 @@ def stepTup (st : St) (k : Nat) (t : Tup Obj) (cmd : String) (args : List String
       | (st, some o) => if hasId t o.id then (st, "O set dup-refused") else run st (.set i o)
       | (st, none) => (st, "O bad-op")
     | none => (st, "O bad-op")
-  | "rem", [e] => match parseVal false e with
+  | "rem", [e] => match parseVal 0 e with
     | some v => run st (.rem ⟨0, v⟩) | none => (st, "O bad-op")
   | "get", [i] => match parseInt i with
     | some i =>
@@ -249,7 +253,7 @@ def stepTup (st : St) (k : Nat) (t : Tup Obj) (cmd : String) (args : List String
         | .ok o => s!"v={showObj o}" | .raised e => "err=" ++ e.name | .ub => "ub"
       (st, out st cmd rs (some (.tup t)))
     | none => (st, "O bad-op")
-  | "mem", [e] => match parseVal false e with
+  | "mem", [e] => match parseVal 0 e with
     | some v =>
       let rs := match t.mem ident ⟨0, v⟩ fuel with
         | some true => "b=1" | some false => "b=0" | none => "diverges"
@@ -285,9 +289,9 @@ def stepTwo (st : St) (k : Nat) (c : Cont) (cmd : String) (srcTok : String) : St
     | _ =>
       let ys : Option (List Int) :=
         match src with
-        | .arr s a => if s == c.isStr then some a.items else none
-        | .lst s l => if s == c.isStr then some l.items else none
-        | .tup u => if isc && !c.isStr then some (u.items.map (·.val)) else none
+        | .arr s a => if s == c.ek then some a.items else none
+        | .lst s l => if s == c.ek then some l.items else none
+        | .tup u => if isc && c.ek == 0 then some (u.items.map (·.val)) else none
       match ys with
       | none => (st, "O bad-op")
       | some ys =>
@@ -330,21 +334,21 @@ def stepLine (st : St) (line : String) : St × String :=
       | .raised e => s!"O kfself {opn} {kind} ret err={e.name}"
       | .ub => s!"O kfself {opn} {kind} ub"
     if kind == "A" || kind == "AR" || kind == "L" then
-      let vs := elems.map (parseVal false)
+      let vs := elems.map (parseVal 0)
       if !vs.all Option.isSome || elems.length > 200 then (st, "O bad-op") else
       let xs := vs.filterMap id
       if kind == "L" then
         let l : Lst Int := (Lst.empty.concat xs).1
         if isc then
           match l.concatSelf 100000 with
-          | some l' => (st, fmt (.ok ()) (.lst false l'))
+          | some l' => (st, fmt (.ok ()) (.lst 0 l'))
           | none => (st, s!"O kfself {opn} {kind} diverges")
-        else let (l', r) := l.assignSelf; (st, fmt r (.lst false l'))
+        else let (l', r) := l.assignSelf; (st, fmt r (.lst 0 l'))
       else
         let a0 : Arr Int := Arr.new xs
         let a : Arr Int := if kind == "AR" && xs.length > 0 then (a0.resize (2 * xs.length)).1 else a0
         let (a', r) := if isc then a.concatSelf else a.assignSelf
-        (st, fmt r (.arr false a'))
+        (st, fmt r (.arr 0 a'))
     else if kind == "T" then
       match parseElems st elems with
       | (st, some os) =>
@@ -358,7 +362,7 @@ def stepLine (st : St) (line : String) : St × String :=
     match emptySlot st slot with
     | none => (st, "O bad-op")
     | some k =>
-      let mk (str : Bool) (isArr : Bool) : St × String :=
+      let mk (str : Nat) (isArr : Bool) : St × String :=
         let vs := elems.map (parseVal str)
         if vs.all Option.isSome then
           let xs := vs.filterMap id
@@ -366,10 +370,12 @@ def stepLine (st : St) (line : String) : St × String :=
           (setSlot st k (some c), out st "new" "ok" (some c))
         else (st, "O bad-op")
       match kind with
-      | "A" => mk false true
-      | "AS" => mk true true
-      | "L" => mk false false
-      | "LS" => mk true false
+      | "A" => mk 0 true
+      | "AS" => mk 1 true
+      | "A12" => mk 2 true
+      | "A5" => mk 3 true
+      | "L" => mk 0 false
+      | "LS" => mk 1 false
       | "T" =>
         match parseElems st elems with
         | (st, some os) =>
